@@ -807,3 +807,63 @@ Proof.
       split; [intros m0 q [E|E]; subst j; discriminate Pj|split; [intros m0 q E; subst j; discriminate Pj|intros m0 q x E; subst j; discriminate Pj]].
   - intros c0 Hc0 _. rewrite Cu, Hcu in Hc0. inversion Hc0; subst c0. rewrite Tr, Tu, Hc', !prcount_app, (prcount_cons a n2), Ha, C1, C2, Cr. split; [cbn; lia|reflexivity].
 Qed.
+
+Lemma exec_cancelget_F : forall p st m t m0 q r st' ev,
+  CInv (core st) -> XInv st -> FRel p st m ->
+  tcont (thr st t) = ILock m0 (LPqCancelGet q) :: r -> exec_instr st t (ILock m0 (LPqCancelGet q)) r = (st', ev) ->
+  FRel p st' (fold_left m14r_step (evs t ev) m).
+Proof.
+  intros p st m t m0 q r st' ev I X R Hc H.
+  destruct (f_own_pr _ _ _ R t (ILock m0 (LPqCancelGet q))) as [_ [O2 _]]; [rewrite Hc; left; reflexivity|].
+  destruct (O2 m0 q eq_refl) as [W [Hcu Eq]].
+  assert (Nm : t <> main) by (intro E; subst t; exact (main_not_wkr st X W)).
+  destruct (exec_instr_eff _ _ _ _ _ _ I Hc H) as [F _ _ _ Htret _ _].
+  assert (Tr : forall u, tret (thr st' u) = tret (thr st u)) by (apply Htret; intros; discriminate).
+  cbn [exec_instr exec_lact] in H.
+  set (s1 := acq_mtx (set_owner st (updM (owner st) m0 (Some t))) t m0) in *.
+  inversion H; subst st' ev; clear H.
+  assert (Pl : forall e, In e [ELock m0] -> f14_plain e) by (intros e [<-|[]]; exact Logic.I).
+  match goal with |- FRel p ?S' _ => set (st' := S') end.
+  apply (f_wret p st st' m _ t _ r [] (IUnlock (MPq q) (URet (RBool (pcancel (pps s1 q))))) [] CCancel R (m14r_fplain_fold t _ m Pl) F Hc); auto.
+  - unfold st', s1. thr_simpl.
+  - intros j [].
+  - intros j [].
+  - intros m1 v E. discriminate E.
+  - exact Logic.I.
+  - intros m1 v E. inversion E; subst v. split; [intros z Y; discriminate Y|]. intro L.
+    pose proof (f_late _ _ _ R t W L) as Pc. rewrite <- Eq in Pc. unfold s1. cbn. rewrite Pc. exact Logic.I.
+  - split; [intros m1 q1 [E|E]; discriminate E|split; [intros m1 q1 E; discriminate E|intros m1 q1 x1 E; discriminate E]].
+  - intro q1. repeat split; reflexivity.
+Qed.
+
+Lemma exec_wlsend_F : forall p st m t m0 q x r st' ev,
+  CInv (core st) -> XInv st -> FRel p st m ->
+  tcont (thr st t) = ILock m0 (LPqLSend q x) :: r -> exec_instr st t (ILock m0 (LPqLSend q x)) r = (st', ev) ->
+  FRel p st' (fold_left m14r_step (evs t ev) m).
+Proof.
+  intros p st m t m0 q x r st' ev I X R Hc H.
+  destruct (f_own_pr _ _ _ R t (ILock m0 (LPqLSend q x))) as [_ [_ O3]]; [rewrite Hc; left; reflexivity|].
+  destruct (O3 m0 q x eq_refl) as [W [Hcu Eq]].
+  assert (Nm : t <> main) by (intro E; subst t; exact (main_not_wkr st X W)).
+  destruct (exec_instr_eff _ _ _ _ _ _ I Hc H) as [F _ _ _ Htret _ _].
+  assert (Tr : forall u, tret (thr st' u) = tret (thr st u)) by (apply Htret; intros; discriminate).
+  cbn [exec_instr exec_lact] in H.
+  set (s1 := acq_mtx (set_owner st (updM (owner st) m0 (Some t))) t m0) in *.
+  set (wake := match precvq (pps s1 q) with [] => olist (climb_start s1 (pw (pps s1 q)) (Some (HPipe q))) | _ => [] end) in *.
+  assert (Wkq : forall j, In j wake -> fq j).
+  { unfold wake. destruct (precvq (pps s1 q)); [|intros j []].
+    destruct (climb_start s1 (pw (pps s1 q)) (Some (HPipe q))) as [i0|] eqn:Ec; [|intros j []].
+    apply climb_at_climb in Ec. destruct Ec as [k ->]. intros j [<-|[]]. exact Logic.I. }
+  inversion H; subst st' ev; clear H.
+  assert (Pl : forall e, In e [ELock m0] -> f14_plain e) by (intros e [<-|[]]; exact Logic.I).
+  match goal with |- FRel p ?S' _ => set (st' := S') end.
+  apply (f_wret p st st' m _ t _ r [] (IUnlock (MPq q) (URet (RBool (negb (pcancel (pps s1 q)))))) wake (CLSend x) R (m14r_fplain_fold t _ m Pl) F Hc); auto.
+  - unfold st', s1. thr_simpl.
+  - intros j [].
+  - intros m1 v E. discriminate E.
+  - exact Logic.I.
+  - intros m1 v E. inversion E; subst v. split; [intros z Y; discriminate Y|]. intro L.
+    pose proof (f_late _ _ _ R t W L) as Pc. rewrite <- Eq in Pc. unfold s1. cbn. rewrite Pc. exact Logic.I.
+  - split; [intros m1 q1 [E|E]; discriminate E|split; [intros m1 q1 E; discriminate E|intros m1 q1 x1 E; discriminate E]].
+  - intro q1. unfold st', s1. cbn. unfold updZ. destruct (Z.eqb_spec q1 q) as [->|]; repeat split; reflexivity.
+Qed.
